@@ -956,6 +956,53 @@ def m_map_get(ex, st, args, dty, canon):
     raise Fork(alts)
 
 
+def _map_key_term(ex, st, v):
+    v = deref_all(ex, st, v)
+    return v.t if isinstance(v, Sc) else as_str(ex, st, v).t
+
+
+@pattern(r'^HashMap::<.*>::(values|keys|iter)$')
+def m_map_iterate(ex, st, args, dty, canon):
+    """iteration over a map built by insertion: the live entries (the last one of each key) in an arbitrary
+    order -- every order is explored (maps of up to 3 entries)"""
+    import itertools
+    mp = as_ptr(ex, st, args[0], 'HashMap iteration')
+    mv = deref(ex, st, mp)
+    if not (isinstance(mv, Tree) and mv.meta and mv.meta[0] == 'map'):
+        raise Inconclusive('HashMap::%s on %r' % (canon[3], mv))
+    n = mv.meta[1]
+    if n > 3:
+        raise Inconclusive('HashMap::%s on a map of %d entries (bound 3)' % (canon[3], n))
+    keys = [_map_key_term(ex, st, ex.child(st, ex.child(st, mv, i, None), 0, None)) for i in range(n)]
+    what = canon[3]
+
+    def item(i):
+        if what == 'values':
+            return Ptr(mp.cell, mp.path + (i, 1))
+        if what == 'keys':
+            return Ptr(mp.cell, mp.path + (i, 0))
+        return Tree({0: Ptr(mp.cell, mp.path + (i, 0)), 1: Ptr(mp.cell, mp.path + (i, 1))}, None, None)
+    if n == 0:
+        return it('val', (), 0)
+    alts = []
+    for r in range(n):
+        for rest in itertools.combinations(range(n - 1), r):
+            live = set(rest) | {n - 1}
+            cond = z3.And([z3.BoolVal(True)] + [(z3.And([keys[i] != keys[j] for j in range(i + 1, n)]) if i in live
+                                                 else z3.Or([keys[i] == keys[j] for j in range(i + 1, n)])) for i in range(n - 1)])
+            for perm in itertools.permutations(sorted(live)):
+                alts.append((cond, (lambda perm: (lambda s_: it('val', tuple(item(i) for i in perm), 0)))(perm)))
+    raise Fork(alts)
+
+
+@pattern(r'^(http::)?(response::)?Response::<.*>::status$')
+def m_response_status(ex, st, args, dty, canon):
+    r = deref_all(ex, st, args[0])
+    if isinstance(r, Tree) and r.origin is not None:
+        return ex.child(st, Tree({}, r.origin + '.parts', 'http::response::Parts'), 0, 'http::StatusCode')
+    raise Inconclusive('Response::status of %r' % (r,))
+
+
 # ------------------------------------------------------------------ further abstraction boundaries
 
 @pattern(r'^(protocol::request::)?GUID::new$')
